@@ -548,6 +548,17 @@ func TestCheck(t *testing.T) {
 	r := mc.New(t, "C19")
 	defer r.Finish()
 	if r.Replay != nil {
+		var probe struct {
+			Family string `json:"family"`
+		}
+		r.DecodeReplay(&probe)
+		if probe.Family == "ws-tunnel" {
+			var wc WsCase
+			r.DecodeReplay(&wc)
+			k, d := executeWs(t, wc)
+			recordWs(r, wc, k, d)
+			return
+		}
 		var rc replayCase
 		r.DecodeReplay(&rc)
 		fixTypes(rc.Tree)
@@ -582,6 +593,19 @@ func TestCheck(t *testing.T) {
 			}
 		}
 	}
+	// the websocket tunnel connection (a wrapper around a real gorilla connection)
+	wsDepth := 4
+	if r.Thorough() {
+		wsDepth = 5
+	}
+	ws := wsCases(wsDepth)
+	for i, wc := range ws {
+		if r.Mine(idx + 1000 + i) {
+			k, d := executeWs(t, wc)
+			recordWs(r, wc, k, d)
+		}
+	}
+	r.Note("ws_tunnel_sequences", len(ws))
 	sort.Strings(sampleTrees)
 	for _, s := range sampleTrees {
 		r.Sample(map[string]any{"composition": s, "explored": "complete reachable state graph under 7 ops x every wrapper node"})
